@@ -696,7 +696,7 @@ class Manager:
         if event.alert_done:
             self.fire(event.child('done', event.value.value), *event.channels)
 
-        if err is None and event.success:
+        if err is None and not event.value.errors and event.success:
             channels = getattr(event, 'success_channels', event.channels)
             self.fire(event.child('success', event, event.value.value), *channels)
 
